@@ -903,7 +903,18 @@ func (f *Frame) execInstr(ins ssa.Instruction, st *State) {
 		f.note("channel send ignored")
 	case *ssa.Select:
 		f.note("select: result havoc-ed")
-		f.vals[ins] = f.havocTyped(st, ins.Type(), "select")
+		v := f.havocTyped(st, ins.Type(), "select")
+		if tup, ok := v.(*Tuple); ok && len(tup.Elems) > 0 {
+			if idx, ok := tup.Elems[0].(*Term); ok && idx.Sort == sortInt {
+				// the chosen case index is one of the cases (or -1: default of a non-blocking select)
+				lo := int64(0)
+				if !ins.Blocking {
+					lo = -1
+				}
+				f.addHyp(st.pc, tAnd(tLe(tInt(lo), idx), tLt(idx, tInt(int64(len(ins.States))))))
+			}
+		}
+		f.vals[ins] = v
 	case *ssa.MultiConvert, *ssa.SliceToArrayPointer:
 		f.note("unsupported conversion havoc-ed")
 		f.vals[ins.(ssa.Value)] = f.havocTyped(st, ins.(ssa.Value).Type(), "conv")
